@@ -942,6 +942,73 @@ func injectLegs(r *rng, u *universe, w *setWorld, tiers []*gtier, profs []*gprof
 	return tiers, profs, pk, shape
 }
 
+// injectStagedAfter builds the layout "a tier with an enforced policy that lets the packet through, then a tier whose
+// policies are ALL staged (default action Deny), then something that allows": the staged-only tier must be a no-op in
+// every dataplane, end-of-tier action included.
+func injectStagedAfter(r *rng, u *universe, tiers []*gtier, profs []*gprofile) ([]*gtier, []*gprofile, []packet) {
+	pr := []int{6, 17}[r.intn(2)]
+	mk := func(a string, proto int) *grule { return &grule{action: a, proto: proto, notProto: -1, icmpType: -1} }
+	if len(tiers) == 0 {
+		tiers = []*gtier{{name: "tier0", defaultAction: "Pass"}}
+	}
+	t0 := tiers[0]
+	hasEnforced := false
+	for _, g := range t0.groups {
+		for _, p := range g.pols {
+			hasEnforced = hasEnforced || !p.staged
+		}
+	}
+	if !hasEnforced {
+		pass := []*grule{mk("pass", pr)}
+		t0.groups = append(t0.groups, &ggroup{pols: []*gpolicy{{id: types.PolicyID{Name: t0.name + ".enf", Kind: "GlobalNetworkPolicy"}, in: pass, out: pass}}})
+	}
+	t0.defaultAction = "Pass"
+	ts := &gtier{name: "tierS", defaultAction: []string{"Deny", "Deny", ""}[r.intn(3)]}
+	if !kv.defaultLenient && ts.defaultAction == "" {
+		ts.defaultAction = "Deny"
+	}
+	grp := &ggroup{}
+	for i, n := 0, 1+r.intn(2); i < n; i++ {
+		kind := []string{"StagedGlobalNetworkPolicy", "StagedNetworkPolicy", "StagedKubernetesNetworkPolicy"}[r.intn(3)]
+		ns := ""
+		if kind != "StagedGlobalNetworkPolicy" {
+			ns = "ns1"
+		}
+		rs := []*grule{mk([]string{"deny", "allow", "pass"}[r.intn(3)], -1)}
+		grp.pols = append(grp.pols, &gpolicy{id: types.PolicyID{Name: fmt.Sprintf("tierS.st%d", i), Namespace: ns, Kind: kind}, staged: true, in: rs, out: rs})
+		if r.chance(40) {
+			ts.groups = append(ts.groups, grp)
+			grp = &ggroup{}
+		}
+	}
+	if len(grp.pols) > 0 {
+		ts.groups = append(ts.groups, grp)
+	}
+	at := 1 + r.intn(len(tiers))
+	out := append([]*gtier{}, tiers[:at]...)
+	out = append(out, ts)
+	out = append(out, tiers[at:]...)
+	for _, t := range out[at+1:] {
+		if r.chance(70) {
+			t.defaultAction = "Pass"
+		}
+	}
+	if len(profs) == 0 {
+		profs = []*gprofile{{name: "prof0"}}
+	}
+	if r.chance(75) {
+		al := mk("allow", pr)
+		profs[0].in = append([]*grule{al}, profs[0].in...)
+		profs[0].out = append([]*grule{al}, profs[0].out...)
+	}
+	var pk []packet
+	for i := 0; i < 3; i++ {
+		pk = append(pk, packet{proto: pr, src: u.addrs[r.intn(len(u.addrs))], dst: u.addrs[r.intn(len(u.addrs))],
+			sport: []int{1000, 5000, 40000}[r.intn(3)], dport: u.ports[r.intn(len(u.ports))]})
+	}
+	return out, profs, pk
+}
+
 func indexOf(xs []int, x int) int {
 	for i, y := range xs {
 		if y == x {
@@ -1802,12 +1869,20 @@ func main() {
 		if (kv.named && o.feat == "" && r.chance(40)) || (o.feat == "named" && r.chance(60)) {
 			tiers, profs, extra, legs = injectLegs(r, u, w, tiers, profs)
 		}
+		stagedAfter := false
+		if o.feat == "" && legs == "" && r.chance(35) {
+			tiers, profs, extra = injectStagedAfter(r, u, tiers, profs)
+			stagedAfter = true
+		}
 		c, err := buildCase(r, o, u, tiers, profs, w, nil, extra...)
 		if err != nil {
 			fail(err)
 		}
 		if legs != "" {
 			c.Tags = append(c.Tags, "both-legs:"+legs)
+		}
+		if stagedAfter {
+			c.Tags = append(c.Tags, "layout:staged-only-tier-after-enforced-tier")
 		}
 		_ = enc.Encode(c)
 	}
